@@ -216,7 +216,9 @@ def answerOf (stages : List Stage) (p : Parsed) (out : TableOut) : Json :=
   | .sparse pre bases, .sparse t =>
     -- hypotheses of the sparse theorems: no stage addresses a hidden raw key of a header-mapped base
     let safe := bases.all (fun b => leakSafe (!(baseS b).leak.isEmpty) (pre ++ stages))
-    (answer t (eagerTableS (pre ++ stages) bases) p.ri p.accs obsS eagerObsS runS).setObjVal! "leak_safe" (Json.bool safe)
+    -- hypothesis of `first_row_irrelevant_sparse`: every dict looks like the first one at every stage
+    ((answer t (eagerTableS (pre ++ stages) bases) p.ri p.accs obsS eagerObsS runS).setObjVal! "leak_safe" (Json.bool safe)).setObjVal!
+      "uniform" (Json.bool (uniformRunS (pre ++ stages) (bases.map baseS)))
   | _, _ => obj [("model", obj [("pipe_err", ofNat 1)]), ("spec", Json.null), ("hyp", Json.bool false)]
 
 /-- request `{"case": table}` or `{"tables": [table…], "stages": […]}`: the tables go through `session`
